@@ -226,7 +226,7 @@ def run_case(case):
                 COL.violation("C19.repro", "randcap: equal seeded generators give different output", {"ra": ra, "dec": dec, "rad": rad})
         return
     if fam == "randsphere":
-        mode = int(rng.integers(0, 6))
+        mode = int(rng.integers(0, 8))
         rr = dr = None
         if mode in (0, 1, 3):
             a, b = sorted(rng.uniform(0, 360, size=2))
@@ -240,6 +240,12 @@ def run_case(case):
         if mode == 4:     # polar strips
             w = 10.0 ** rng.uniform(-6, 0)
             dr = [90.0 - w, 90.0] if rng.random() < .5 else [-90.0, -90.0 + w]
+        if mode >= 6:     # zero-width and few-ulp-wide boxes sitting on the limits of the domain themselves
+            e360, e0 = float(np.nextafter(360.0, 0.0)), float(np.nextafter(0.0, 1.0))
+            rr = [[360.0, 360.0], [0.0, 0.0], [e360, 360.0], [360.0 - 10.0 ** rng.uniform(-13, -9), 360.0], [0.0, e0],
+                  [0.0, 10.0 ** rng.uniform(-13, -9)], None][int(rng.integers(0, 7))]
+            dr = [[90.0, 90.0], [-90.0, -90.0], [float(np.nextafter(90.0, 0.0)), 90.0], [-90.0, float(np.nextafter(-90.0, 0.0))],
+                  [0.0, 0.0], None, None][int(rng.integers(0, 7))]
         num = int(rng.choice([1, 5, 300]))
         system = "eq" if rng.random() < .75 else "xyz"
         probe.attempt(co.randsphere, 12, ra_range=rr, dec_range=dr, system=system, rng=EdgeRng(np.random.default_rng(seed)))
